@@ -118,6 +118,7 @@ class Generated:
         self.drop_counts = {}
         self.types = []
         self.lost = []   # (fn key, props, reason)
+        self.lost_spans = []
 
     def text(self):
         return '\n'.join(self.lines) + '\n'
@@ -707,6 +708,11 @@ class Unit:
             for c in ls.inv + ls.inv_except_break + ls.ensures:
                 props |= set(c.props or [])
         gen.lost.append((spec.key, sorted(props), reason))
+        try:
+            text_, mask_, fn_ = self.locate(spec)
+            gen.lost_spans.append((spec.file, line_of(text_, fn_['start']), line_of(text_, fn_['bclose'])))
+        except Exception:
+            pass
         gen.lines.append('// ---- LOST fn %s: %s' % (spec.key, reason.replace('\n', ' ')))
         gen.lines.append('#[verifier::external_body]')
         for a in spec.attrs:
@@ -821,8 +827,8 @@ def cell_census(gen, repo_src):
     for f in gen.fns:
         fl, a, b = f.src_span
         spans.setdefault(fl, []).append((a, b))
-    for (key, props, reason) in gen.lost:
-        pass
+    for (fl, a, b) in gen.lost_spans:
+        spans.setdefault(fl, []).append((a, b))
     out = []
     for fn_ in sorted(os.listdir(repo_src)):
         if not fn_.endswith('.rs'):
